@@ -376,10 +376,48 @@ def gen_missing_content_programs():
     return progs
 
 
+def gen_unsized_record_programs():
+    """C18 (fixed family): an entry whose index record carries NO size (made with `index::insert` after a by-address
+    write - the record then says size 0): every extraction by key delivers the stored bytes and, for copies, their count,
+    whatever the record says."""
+    progs = []
+    i = 0
+    for name in EXTRACT_BY_KEY:
+        for fl in ("s",) if name in SYNC_ONLY else ("s", "a"):
+            algo = L.ALGOS[i % len(L.ALGOS)]
+            d = b"an entry whose record has no size %d " % i * 5
+            d2 = b"the other entry %d" % i
+            k, k2 = b"us%d" % i, b"ut%d" % i
+            ops = [f"write_hash {fl} c0 {algo} {hx(d)}", w_oneshot("a", algo, k2, d2),
+                   f"index_insert s c0 {hx(k)} sri={sri_tok(algo, d)} time=9 size=- meta=- raw=-"]
+            steps = []
+            for dest in ("out/x", "out/x"):
+                ops.append(f"{name} {fl} c0 {hx(k)} {dest}")
+                steps.append((len(ops) - 1, name, dest, False))
+                ops.append(f"cat {dest}")
+                if name.startswith("hard_link") or name.startswith("reflink"):
+                    ops.append(f"del {dest}")
+            ops.append(f"read s c0 {hx(k)}"); rd = len(ops) - 1
+            ops.append(f"read a c0 {hx(k2)}")
+            ops.append("dump c0/content-v2")
+            ops.append("dump out")
+            progs.append(Program(f"unsized-record-{name}-{fl}", ops,
+                                 tags={"data": d, "data2": d2, "steps": steps, "gone": False, "read": rd, "siblings": False,
+                                       "must_succeed": not name.startswith("reflink"), "both_binaries": i % 4 == 0,
+                                       "variety": ("unsized-record", name, fl)}))
+            i += 1
+    return progs
+
+
 def mon_extraction(rr):
     out = []
     t = rr.prog.tags
     d = t["data"]
+    if t.get("must_succeed"):
+        for ei, name, dest, gone in t["steps"][:1]:
+            if ei < len(rr.impl) and toks(rr.impl[ei])[0] != "ok":
+                out.append(Failure("healthy_extraction_failed", ei, f"{name} of a pristine entry (whose record carries no size) -> "
+                                   f"{' '.join(toks(rr.impl[ei])[:3])}", sig={"op": name, "api": rr.prog.ops[ei].split(' ')[1]}))
     n = len(rr.impl)
     for ei, name, dest, gone in t["steps"]:
         # a refused extraction of missing content leaves the destination as it was
